@@ -406,7 +406,7 @@ func init() {
 			res, _ := runTrajectory(sc, env, wideOutputCfg(), []Oracle{o}, nil)
 			return res
 		},
-		Quick: 500, Thorough: 16000,
+		Quick: 1600, Thorough: 48000,
 		NonTrivial: func(res *Result) bool {
 			return res.Status == "ok" && (res.Stats["reach.at-dryness-limit"] > 0 || res.Stats["reach.above-field-capacity"] > 0 || res.Stats["reach.layer-below-groundwater"] > 0)
 		},
@@ -440,7 +440,7 @@ func init() {
 			res, _ := runTrajectory(sc, env, nil, []Oracle{o}, nil)
 			return res
 		},
-		Quick: 600, Thorough: 20000,
+		Quick: 2000, Thorough: 60000,
 		NonTrivial: func(res *Result) bool { return res.Status == "ok" && res.Stats["reach.transpiration-day"] > 0 },
 		Rule:       "one generated world per evaluation (five ET methods, latitudes to +-70 degrees incl. polar day/night, radiation missing with sunshine hours, hard frost, all shipped annual crops, shallow groundwater), run by the real session.Run; ET and uptake invariants after the evapotranspiration step and after the first water sub-step of every day; non-trivial = the run had days with transpiration",
 		ReachKeys:  []string{"reach.transpiration-day", "reach.roots-at-groundwater", "reach.water-stress", "reach.cap-engaged", "reach.bare-day", "reach.radiation-from-sunshine", "reach.uptake-limited-by-available-water"},
@@ -486,7 +486,7 @@ func init() {
 			res, _ := runTrajectory(sc, env, nil, []Oracle{o}, nil)
 			return res
 		},
-		Quick: 600, Thorough: 20000,
+		Quick: 2000, Thorough: 60000,
 		NonTrivial: func(res *Result) bool { return res.Status == "ok" && (res.Stats["reach.frozen-surface"] > 0 || res.Stats["reach.daily-swing-25K"] > 0) },
 		Rule:       "one generated world per evaluation (bulk density classes and measured values 0.8..1.9, humus 0..10 %, peat, water contents from the dryness limit to saturation, frost and heat swings), run by the real session.Run; after every run of the soil temperature routine every layer must lie inside the running envelope of the initial profile, the lower-boundary value and all surface values imposed so far; non-trivial = the run had a frozen surface",
 		ReachKeys:  []string{"reach.frozen-surface"},
